@@ -45,6 +45,9 @@ for p, slices in VOCAB_THOROUGH:
 # result and tags that comparison C13 (seeded breakage c13_equal_memcmp_mixed_signedness: a run-time-only memcmp path)
 for fl in ("O2", "O0"):
     runs.append({"src": "harness/c06_mixed_types.cpp", "flavour": fl, "std": "c++20", "jobs": ["mixed/two-range/.*"]})
+# shifting operations of static_vector at every (size, position, count): constexpr table vs run time (tagged C13 by C01's harness)
+for fl in ("O2", "O0"):
+    runs.append({"src": "harness/c01_constexpr_shift.cpp", "flavour": fl, "std": "c++20"})
 # contract checks on (flavour chk): every precondition of a valid call must itself be a constant expression
 for p in [1, 2, 3, 4, 5, 6, 7, 8]:
     runs.append({"src": "harness/c13_kernels.cpp", "flavour": "chk", "std": "c++20", "defs": ["-DMC_PART=%d" % p], "cxxflags": CX, "tiers": ["thorough"]})
